@@ -65,7 +65,10 @@ def mutate(ex, step, root, mut, fresh):
     elif mut == "append":
         root.children.append(fresh())
     elif mut == "insert":
-        root.children.insert(ex.int("i%d" % step), fresh())
+        try:
+            root.children.insert(ex.int("i%d" % step), fresh())
+        except OverflowError:
+            pass                    # beyond a C ssize_t: refused, as by the built-in list
     elif mut == "del":
         try:
             del root.children[ex.int("i%d" % step)]
